@@ -12,6 +12,10 @@
     (before / after every child, returning or raising), the expected status inside do_not_convert /
     unspecified / with / user-requested converted regions, no assertion of ag_ctx fires, a thread's trace equals
     the trace of the same tree run alone whatever the other threads do.
+    Inner functions of converted code (kinds nested / nestedg: a def nested one or two levels deep in an entity
+    converted by convert() / to_graph() with every combination of user_requested / recursive, handed out as a
+    closure) are callees like any other: called from the converted code's caller, from inside do_not_convert
+    regions, with-blocks and plain code, wrapped by further decorators; they must see their call site's context.
 """
 import itertools
 import json
@@ -59,12 +63,23 @@ def rand_kind(rnd):
     return ('tograph', rnd.random() < 0.6)
 
 
+def rand_nested(rnd):
+    """an inner function (nested def) of a converted entity: every conversion route and flag combination"""
+    if rnd.random() < 0.3:
+        return ('nestedg', rnd.random() < 0.5, rnd.random() < 0.3)
+    return ('nested', rnd.random() < 0.6, rnd.random() < 0.5, rnd.random() < 0.3)
+
+
+NESTED_KINDS = ('nested', 'nestedg')
+ENTERS_NOTHING = ('plain', 'artifact', 'inner') + NESTED_KINDS
+
 REP_KINDS = [('plain',), ('dnc',), ('unspec',), ('with', ('fresh', 'E')), ('with', ('at', 0)), ('with', ('global', 'D')),
              ('convert', True, True, ('null',)), ('convert', True, False, ('null',)), ('convert', False, True, ('null',)),
              ('convert', True, True, ('fresh', 'E')), ('convert', True, True, ('global', 'D')), ('convert', True, True, ('at', 1)),
              ('internal', ('at', 0), True, True), ('internal', ('fresh', 'D'), True, True),
              ('internal', ('fresh', 'U'), False, True), ('internal', ('global', 'E'), True, False),
-             ('scope', True), ('scope', False), ('lscope', True), ('tograph', True)]
+             ('scope', True), ('scope', False), ('lscope', True), ('tograph', True),
+             ('nested', True, False, False), ('nested', False, True, True), ('nestedg', False, False)]
 
 
 LAYER_KINDS = [('dnc',), ('unspec',), ('with', ('fresh', 'E')), ('with', ('global', 'D')),
@@ -75,7 +90,9 @@ LAYER_KINDS = [('dnc',), ('unspec',), ('with', ('fresh', 'E')), ('with', ('globa
 INNER_KINDS = [('dnc',), ('unspec',), ('with', ('fresh', 'U')), ('convert', True, True, ('null',)),
                ('convert', True, True, ('fresh', 'E')), ('convert', False, True, ('null',)),
                ('internal', ('fresh', 'E'), True, True), ('internal', ('global', 'D'), True, False),
-               ('scope', True), ('lscope', True), ('tograph', True), ('artifact',), ('inner',)]
+               ('scope', True), ('lscope', True), ('tograph', True), ('artifact',), ('inner',),
+               ('nested', True, False, False), ('nested', True, True, True), ('nested', False, False, True),
+               ('nestedg', False, False), ('nestedg', True, True)]
 
 
 def no_at(k):
@@ -90,7 +107,7 @@ def rand_layers(rnd, kind):
     for _ in range(rnd.choice([1, 1, 1, 2, 2, 3])):
         while True:
             k = rand_kind(rnd) if rnd.random() < 0.5 else rnd.choice(LAYER_KINDS)
-            if k[0] not in ('plain', 'tograph', 'inner') and no_at(k):
+            if k[0] not in ('plain', 'tograph', 'inner') + NESTED_KINDS and no_at(k):
                 break
         out.append(k)
     return out
@@ -126,8 +143,8 @@ def rand_tree(rnd, max_nodes=12, max_depth=4):
             ch.append(mk(depth + 1))
         raise_at = rnd.randint(0, len(ch)) if rnd.random() < 0.4 else None
         k = rand_kind(rnd)
-        if rnd.random() < 0.08:
-            k = rnd.choice([('artifact',), ('inner',)])
+        if rnd.random() < 0.14:
+            k = rnd.choice([('artifact',), ('inner',), rand_nested(rnd), rand_nested(rnd)])
         return [0, k, rnd.random() < 0.15, rnd.random() < 0.5, raise_at, rnd.choice('EEB'), ch, rand_layers(rnd, k)]
     t = mk(1)
     relabel(t)
@@ -205,6 +222,10 @@ def coq_kind(k):
         return '(KToGraph %s)' % b(k[1])
     if k[0] in ('artifact', 'inner'):
         return 'KArtifact'
+    if k[0] == 'nested':
+        return '(KNested %s %s)' % (b(k[1]), b(k[2]))
+    if k[0] == 'nestedg':
+        return '(KNestedG %s)' % b(k[1])
     raise ValueError(k)
 
 
@@ -308,8 +329,8 @@ def expected_status(n, call_status):
     for i, k in enumerate(layers):
         innermost = (i == len(layers) - 1)
         art_inner = any(x[0] != 'plain' for x in layers[i + 1:])
-        if k[0] in ('plain', 'artifact', 'inner'):
-            continue
+        if k[0] in ENTERS_NOTHING:
+            continue            # incl. inner functions (nested defs) of converted code: calling them enters nothing
         if k[0] == 'dnc':
             cur, why, pushed = 'D', 'inside a do_not_convert region', True
         elif k[0] == 'unspec':
@@ -408,7 +429,11 @@ def judge(t, rec, out):
                     lbl, ' '.join(x[0] + '(' for x in outer_of(n)) + k[0] + ')' * len(outer_of(n)), e[3], why, want))
                 break
             if same_as_call and call_ev is not None and e[2] is not call_ev[2]:
-                fails.append('node %d (%s): a call that enters no context sees a different context object than its caller' % (lbl, k[0]))
+                fails.append('node %d (%s): a call that enters no context sees a different context object than its caller%s' % (
+                    lbl, k[0], '' if k[0] not in NESTED_KINDS else
+                    ': an inner function (nested def) of an entity converted by %s reports %s where its call site reports %s' % (
+                        'to_graph(recursive=%s)' % k[1] if k[0] == 'nestedg' else
+                        'convert(recursive=%s, user_requested=%s)' % (k[2], k[1]), e[3], call_ev[3])))
                 break
             if e[5] == (True, True) and e[3] != 'E':
                 fails.append('node %d: running as a converted function with user_requested options but status is %s' % (lbl, e[3]))
@@ -421,9 +446,19 @@ def judge(t, rec, out):
     return fails
 
 
+def kind_text(k):
+    k = norm_kind(k)
+    if k[0] == 'nested':
+        return 'nested[inner def%s of an entity converted by convert(user_requested=%s, recursive=%s)]' % (
+            ', two levels deep,' if k[3] else '', k[1], k[2])
+    if k[0] == 'nestedg':
+        return 'nestedg[inner def%s of an entity converted by to_graph(recursive=%s)]' % (', two levels deep,' if k[2] else '', k[1])
+    return ' '.join(str(x) for x in k)
+
+
 def describe(t, indent=0):
-    lay = ''.join('%s( ' % ' '.join(str(x) for x in k) for k in outer_of(t))
-    s = '%s%d: %s%s%s%s%s\n' % ('  ' * indent, t[0], lay, ' '.join(str(x) for x in norm_kind(t[1])) + ' )' * len(outer_of(t)),
+    lay = ''.join('%s( ' % kind_text(k) for k in outer_of(t))
+    s = '%s%d: %s%s%s%s%s\n' % ('  ' * indent, t[0], lay, kind_text(t[1]) + ' )' * len(outer_of(t)),
                               ' dyn' if t[2] else '', ' catches' if t[3] else '',
                               '' if t[4] is None else ' raises(%s)@%d' % (t[5], t[4]))
     for c in t[6]:
@@ -495,13 +530,16 @@ def _check(run, thorough):
     run.rule = ('call trees over {plain, do_not_convert, unspecified wrapper, with ctx (fresh / already on the stack / shared '
                 'module-level object), convert(user_requested, recursive, conversion_ctx), internal_convert(ctx, '
                 'convert_by_default, user_requested), FunctionScope, with_function_scope, to_graph} x dynamic/convertible '
-                'function x raise at any position (Exception or BaseException) x swallowed by the parent or not: an exhaustive '
-                'two-level stream (20 representative kinds squared x 4 exception patterns), an exhaustive stream of stacked decorators '
-                '(14 wrappers applied to 13 wrapper results / marked artifacts / inner functions of converted code, under 3 callers, '
+                'function x raise at any position (Exception or BaseException) x swallowed by the parent or not; callees that are '
+                'inner functions (defs nested one or two levels deep) of entities converted by convert(user_requested, recursive) / '
+                'to_graph(recursive), called back from any node (do_not_convert regions, with-blocks, converted and plain code): an exhaustive '
+                'two-level stream (%d representative kinds squared x 4 exception patterns), an exhaustive stream of stacked decorators '
+                '(%d wrappers applied to %d wrapper results / marked artifacts / inner functions of converted code, under 3 callers, '
                 'returning or raising; all pairs of wrappers on an artifact), seeded random trees with up to 3 stacked wrappers per call (<= 14 nodes, '
                 'depth <= 4) on fresh threads and on the main thread, and the same trees on 2..8 (thorough ..16) threads under a '
                 'seeded deterministic interleaving at every observation point plus free-running repetitions; distinct '
-                'non-trivial = distinct (tree, thread count) with at least one context pushed')
+                'non-trivial = distinct (tree, thread count) with at least one context pushed') % (
+                    len(REP_KINDS), len(LAYER_KINDS), len(INNER_KINDS))
     tie_msg = None
     try:
         generate()
